@@ -50,6 +50,7 @@ pub struct Key {
     pub key_tag: u16,
     /// the built-in signer for the same private key
     pub signer: DnssecSigner,
+    der: &'static [u8],
 }
 
 /// RFC 4034 Appendix B.
@@ -121,7 +122,7 @@ pub fn keys(signer_name: &canon::Labels) -> Result<Vec<Key>, String> {
             return Err(format!("{name}: built-in public key encoding differs from the RFC encoding computed from ring's key"));
         }
         let signer = DnssecSigner::new(DNSKEY::from_key(&bpk), sk, hname(signer_name), Duration::from_secs(86400));
-        out.push(Key { name, alg, code, ring, public, dnskey, key_tag: key_tag(&rd), signer });
+        out.push(Key { name, alg, code, ring, public, dnskey, key_tag: key_tag(&rd), signer, der });
     }
     Ok(out)
 }
@@ -319,5 +320,144 @@ pub fn run_keytag_case(flags: u16, alg: u8, len: usize, pattern: u8, l: &mut Loc
                 }
             }
         }
+    }
+}
+
+/// Signer configuration family (audit round, class (a)): the knobs `RRSIG::from_rrset` reads —
+/// signature duration (expiration = inception + duration, a 32-bit serial number), inception
+/// (incl. the last seconds before 2^32), the signer's name (mixed case: lower-cased in the signed
+/// data, kept on the wire), the RecordSet's TTL (the Original TTL; record TTLs are irrelevant) —
+/// and the RRSIG record hickory puts on the wire, read by a third party: the reference parses the
+/// RRSIG RDATA octets, rebuilds the signed data from them and verifies the signature with ring.
+#[allow(clippy::too_many_arguments)]
+pub fn run_signer_knob_case(key: &Key, inception: u32, duration: u32, signer: &canon::Labels, set_ttl: u32, rec_ttl: u32, owner: &canon::Labels, l: &mut Local) {
+    use hickory_proto::dnssec::rdata::DNSSECRData;
+    use hickory_proto::serialize::binary::BinDecoder;
+    l.eval();
+    let case = || {
+        json!({"family": "signer-knobs", "key": key.name, "inception": inception, "duration": duration, "set_ttl": set_ttl, "record_ttl": rec_ttl,
+            "signer": signer.iter().map(|x| vcore::hex::enc(x)).collect::<Vec<_>>(), "owner": owner.iter().map(|x| vcore::hex::enc(x)).collect::<Vec<_>>()})
+    };
+    let sk = match signing_key_from_der(&PrivateKeyDer::Pkcs8(PrivatePkcs8KeyDer::from(key.der)), key.alg) {
+        Ok(k) => k,
+        Err(_) => return,
+    };
+    let signer_h = DnssecSigner::new(key.signer.dnskey().clone(), sk, hname(signer), Duration::from_secs(duration as u64));
+    let name = hname(owner);
+    let rdatas: Vec<canon::Rdata> = vec![vec![canon::Field::Name(vec![b"B".to_vec(), b"z".to_vec()])], vec![canon::Field::Name(vec![b"a".to_vec(), b"z".to_vec()])]];
+    let recs: Vec<hickory_proto::rr::Record> = rdatas
+        .iter()
+        .map(|rd| hickory_proto::rr::Record::from_rdata(name.clone(), rec_ttl, crate::tbs::hrdata(2, rd).expect("NS rdata")))
+        .collect();
+    let mut rrset = RecordSet::with_ttl(name.clone(), RecordType::NS, set_ttl);
+    rrset.set_dns_class(DNSClass::IN);
+    rrset.set_records(recs.clone());
+    let inc = OffsetDateTime::from_unix_timestamp(inception as i64).expect("time");
+    let rrsig = match catch(|| RRSIG::from_rrset(&rrset, DNSClass::IN, inc, &signer_h).map_err(|e| e.to_string())) {
+        Err(p) => {
+            l.violation(&format!("panic:{}", vcore::short_loc(&p.loc)), &p.msg, case);
+            return;
+        }
+        Ok(Err(e)) => {
+            l.violation(&format!("signer-knobs:error:{}", key.name), &e, case);
+            return;
+        }
+        Ok(Ok(r)) => r,
+    };
+    let inp = rrsig.input();
+    let want_exp = inception.wrapping_add(duration);
+    // the signer's own DNSKEY (flags as `DNSKEY::from_key` sets them): reference key tag over its RDATA
+    let want_tag = {
+        let mut rd = key.signer.dnskey().flags().to_be_bytes().to_vec();
+        rd.push(3);
+        rd.push(key.code);
+        rd.extend_from_slice(&key.public);
+        key_tag(&rd)
+    };
+    let star = owner.first().map(|x| x.as_slice() == b"*").unwrap_or(false);
+    let mut bad = vec![];
+    if inp.sig_inception.get() != inception {
+        bad.push("inception");
+    }
+    if inp.sig_expiration.get() != want_exp {
+        bad.push("expiration");
+    }
+    if inp.original_ttl != set_ttl {
+        bad.push("original-ttl");
+    }
+    if inp.num_labels as usize != owner.len() - star as usize {
+        bad.push("labels");
+    }
+    if inp.key_tag != want_tag || u8::from(inp.algorithm) != key.code || u16::from(inp.type_covered) != 2 {
+        bad.push("key-tag-alg-type");
+    }
+    if !inp.signer_name.eq_case(&hname(signer)) {
+        bad.push("signer-name");
+    }
+    if !bad.is_empty() {
+        l.violation(&format!("signer-knobs:rrsig-field:{}", bad.join("+")), &format!("{inp:?}, expected expiration {want_exp}"), case);
+        return;
+    }
+    // the RRSIG as a third party sees it on the wire
+    let rdata = RData::DNSSEC(DNSSECRData::RRSIG(rrsig.clone()));
+    let wire = match hickory_proto::serialize::binary::BinEncodable::to_bytes(&rdata) {
+        Ok(w) => w,
+        Err(e) => {
+            l.violation("signer-knobs:rrsig-does-not-encode", &e.to_string(), case);
+            return;
+        }
+    };
+    // reference parse: 18 fixed octets, an UNCOMPRESSED signer name with the case as configured, signature
+    let parsed = (|| -> Option<(SigParams, Vec<u8>)> {
+        let f = wire.get(..18)?;
+        let (labels, after) = vref::name::from_wire_uncompressed(&wire, 18)?;
+        Some((
+            SigParams {
+                type_covered: u16::from_be_bytes([f[0], f[1]]),
+                algorithm: f[2],
+                labels: f[3],
+                original_ttl: u32::from_be_bytes([f[4], f[5], f[6], f[7]]),
+                expiration: u32::from_be_bytes([f[8], f[9], f[10], f[11]]),
+                inception: u32::from_be_bytes([f[12], f[13], f[14], f[15]]),
+                key_tag: u16::from_be_bytes([f[16], f[17]]),
+                signer: labels,
+            },
+            wire[after..].to_vec(),
+        ))
+    })();
+    let Some((p, sig)) = parsed else {
+        l.violation("signer-knobs:rrsig-wire-unparseable", "RRSIG RDATA is not 18 octets + uncompressed name + signature", case);
+        return;
+    };
+    if &p.signer != signer {
+        let what = if vref::name::labels_eq_fold(&p.signer, signer) { "case-changed" } else { "changed" };
+        l.violation(&format!("signer-knobs:rrsig-wire-signer-name-{what}"), "the signer name on the wire is not the configured one", case);
+        return;
+    }
+    if p.expiration != want_exp || p.inception != inception || p.original_ttl != set_ttl || p.algorithm != key.code || p.key_tag != want_tag {
+        l.violation("signer-knobs:rrsig-wire-fields", &format!("{p:?}"), case);
+        return;
+    }
+    match canon::signed_data(owner, 1, &p, &rdatas) {
+        Ok(w) => {
+            if key.ring_verify(&w, &sig) {
+                l.outcome(&format!("signer-knobs:third-party-verifies-from-wire:{}", key.name));
+                l.nontrivial(fnv64(&wire[..wire.len() - sig.len()]) ^ key.code as u64 ^ (rec_ttl as u64) << 32);
+            } else {
+                l.violation(&format!("signer-knobs:third-party-rejects:{}", key.name), "ring rejects hickory's signature over the signed data rebuilt from the RRSIG on the wire", case);
+            }
+        }
+        Err(e) => l.violation("signer-knobs:labels-field", &format!("{e:?}"), case),
+    }
+    // hickory reads its own RRSIG back and verifies it
+    match RData::read(BinDecoder::new(&wire), RecordType::RRSIG) {
+        Ok(RData::DNSSEC(DNSSECRData::RRSIG(back))) => {
+            if back != rrsig {
+                l.violation("signer-knobs:rrsig-wire-roundtrip", "decoded RRSIG differs from the one that was encoded", case);
+            } else if key.signer.dnskey().verify_rrsig(&name, DNSClass::IN, &back, recs.iter().rev()).is_err() {
+                l.violation(&format!("signer-knobs:selfverify-fails:{}", key.name), "the decoded RRSIG does not verify", case);
+            }
+        }
+        _ => l.violation("signer-knobs:rrsig-wire-roundtrip", "hickory cannot decode its own RRSIG RDATA", case),
     }
 }
